@@ -8,8 +8,8 @@
    look-ups of world.rs. *)
 From Coq Require Import List NArith Bool Lia Sorted.
 Import ListNotations.
-Require Import EV.Base EV.ListN EV.Access EV.Query EV.SlotMap EV.Reserve EV.HList EV.Loop EV.World EV.SlotMapGet
-  EV.ArchProofs EV.QueryProofs EV.WorldFrame EV.Store EV.Graph EV.Effects.
+Require Import EV.Base EV.ListN EV.Access EV.Query EV.QueryInd EV.SlotMap EV.Reserve EV.HList EV.Loop EV.World EV.SlotMapGet
+  EV.ArchProofs EV.WorldFrame EV.Store EV.Graph EV.Effects.
 Open Scope N_scope.
 
 (* ---------- WInv only depends on the structure ---------- *)
